@@ -23,10 +23,10 @@ NoPT == <<>>
 NoPP == [g \in GPUs |-> {}]
 Ev == TraceLog[l]
 Is(e) == l <= N /\ Ev.e = e /\ l' = l + 1
-Same == UNCHANGED <<ranges, pid>>
+Same == UNCHANGED <<ranges, pid, nHost>>
 SetOf(s) == {s[i] : i \in 1..Len(s)}
 
-TInit == EmptyInit(<<>>, <<>>, {}) /\ l = 1 /\ ranges = <<>> /\ pid = 0
+TInit == EmptyInit(<<>>, <<>>) /\ nHost = 0 /\ l = 1 /\ ranges = <<>> /\ pid = 0
 
 \* ------------------------------------------------------------ environment
 WantOf(w) == [g \in {w[i][1] : i \in 1..Len(w)} |-> w[CHOOSE i \in 1..Len(w) : w[i][1] = g][2]]
@@ -72,6 +72,15 @@ TPTChange ==
   /\ Ev.ppn >= ranges[Ev.dev + 1][2] /\ Ev.ppn < ranges[Ev.dev + 1][3]
   /\ Rehome(Ev.dev, Ev.vpn, Ev.ppn)
 
+\* ------------------------------------------------------------------- host
+InDev(g, p) == g \in GPUs /\ p >= ranges[g + 1][2] /\ p < ranges[g + 1][3]
+\* AllocateMemory returned: the real allocator handed out frame <<dev, ppn>> - it must be a frame nobody owns
+\* (no live page on it, not the source of a pending page copy); dig = what the frame holds
+THostAlloc == Is("HostAlloc") /\ Same /\ InDev(Ev.dev, Ev.ppn) /\ HostAlloc(Ev.vpn, Ev.dev, Ev.ppn, Ev.dig)
+THostAllocFail == Is("HostAllocFail") /\ Same /\ UNCHANGED vars     \* the allocator refused (out of memory)
+THostWrite == Is("HostWrite") /\ Same /\ HostWrite(Ev.vpn, Ev.dig)
+THostFree == Is("HostFree") /\ Same /\ HostFree(Ev.vpn)
+
 \* ------------------------------------------------------------ observations
 \* final dump of the real page table and of the contents read through it
 TFinal ==
@@ -101,12 +110,12 @@ TReset ==
      /\ mmuIn' = <<>> /\ cur' = NoReq /\ handling' = FALSE /\ toSend' = <<>> /\ migQ' = <<>> /\ toPrepare' = {}
      /\ oneInFlight' = FALSE /\ drainAck' = 0 /\ shootAck' = 0 /\ migAck' = 0 /\ restartAck' = 0 /\ rdmaAck' = 0
      /\ toMMU' = <<>> /\ mmuOut' = <<>> /\ gpuOut' = <<>> /\ gpuIn' = <<>>
-     /\ pt' = table /\ alloc' = {<<table[v].dev, table[v].ppn>> : v \in DOMAIN table}
+     /\ pt' = table /\ held' = {} /\ nHost' = 0
      /\ cpIn' = [g \in GPUs |-> {}] /\ data' = contents /\ quiet' = [g \in GPUs |-> {}]
      /\ issued' = <<>> /\ accepted' = <<>> /\ replied' = <<>> /\ inflight' = {} /\ moved' = {} /\ dropped' = {}
      /\ pt0' = table /\ content0' = [v \in DOMAIN table |-> contents[<<table[v].dev, table[v].ppn>>]]
 
-TNext == TMMUReq \/ TTakeReply \/ TGPUTake \/ TGPURsp \/ TTakeMMU \/ TCmd \/ TRecvRsp \/ TReply \/ TPTChange
+TNext == THostAlloc \/ THostAllocFail \/ THostWrite \/ THostFree \/ TMMUReq \/ TTakeReply \/ TGPUTake \/ TGPURsp \/ TTakeMMU \/ TCmd \/ TRecvRsp \/ TReply \/ TPTChange
          \/ TFinal \/ TQuiesce \/ TReset
 
 TSpec == TInit /\ [][TNext]_tvars
